@@ -21,3 +21,10 @@ fp("dask/_task_spec.py", "cull", "fuse_linear_task_spec", "resolve_aliases", "Gr
 
 # C06
 fp("dask/order.py", "order", "_connecting_to_roots", "ndependencies")
+
+# C16
+fp("dask/graph_manipulation.py", "checkpoint", "_checkpoint_one", "_build_map_layer", "bind", "_bind_one", "clone", "wait_on",
+   "chunks.bind", "chunks.checkpoint")
+fp("dask/highlevelgraph.py", "Layer.clone")
+fp("dask/blockwise.py", "Blockwise.clone")
+fp("dask/base.py", "clone_key")
